@@ -13,7 +13,7 @@
 (*   RB   render_blocks(self._v_blocks, ..)   (String.__call__)            *)
 (*   Ren  the thread's next access to a cell while rendering; the access   *)
 (*        programs are extracted from the real code by a solo pre-pass     *)
-(*        (cases.json: prog[t] = sequence of [op |-> "w"|"r", c |-> cell]) *)
+(*        (cases.json: prog[t] = sequence of [op |-> "w"|"r"|"u", c |-> cell])*)
 (* Between two shared accesses a thread only touches its own namespace,    *)
 (* so this granularity is complete provided the pre-pass saw every shared  *)
 (* access (the line-granularity stage of the check tests that proviso).    *)
@@ -124,6 +124,10 @@ Ren(t) == /\ pc[t] = "ren"
                 THEN /\ cells' = IF current THEN [cells EXCEPT ![a.c] = t] ELSE cells
                      /\ wrote' = [wrote EXCEPT ![t] = @ \cup {a.c}]
                      /\ UNCHANGED foreign
+                ELSE IF a.op = "u"       \* in-place update of a module- or class-level container (read-modify-write, never private)
+                THEN /\ cells' = [cells EXCEPT ![a.c] = t]
+                     /\ wrote' = [wrote EXCEPT ![t] = @ \cup {a.c}]
+                     /\ foreign' = [foreign EXCEPT ![t] = @ \/ cells[a.c] \notin {0, t}]
                 ELSE /\ foreign' = [foreign EXCEPT ![t] = @ \/ (current /\ cells[a.c] \notin {0, t})
                                                             \/ (current /\ a.c \in wrote[t] /\ cells[a.c] # t)]
                      /\ UNCHANGED <<cells, wrote>>
